@@ -457,12 +457,65 @@ def check_forward_refs(idx: Index, rep: Report) -> None:
             r.fail(g.fq, Finding("C04.R7", g.fq, "block-overwrite", f"`{unparse(st)}` replaces the block registered for `{key}`: earlier successors keep pointing at an orphaned block", f"{g.module.relpath}:{st.lineno}"))
 
 
+def check_label_hints(idx: Index, rep: Report) -> None:
+    """A block label other than the automatic `bb<n>` is part of the text: the printer writes the name hint.  Every
+    block the parser creates for a label -- at its definition or as a forward reference -- must therefore receive the label
+    as its hint (under the validity / not-default guard only), whichever mention comes first."""
+    r = rep.rule("C04.R9", "every Block the parser creates for a label receives that label as its name hint, guarded only by the validity and not-the-default-pattern tests", floor=2)
+    mi = idx.module(PARSER)
+    n = 0
+    for f in mi.functions.values():
+        if f.cls is None or f.cls.name != "Parser":
+            continue
+        fn = f.node
+        made = [st for st in walk_local(fn) if isinstance(st, ast.Assign) and len(st.targets) == 1 and isinstance(st.targets[0], ast.Name) and isinstance(st.value, ast.Call) and unparse(st.value.func) == "Block" and not st.value.args]
+        if not made:
+            continue
+        cfg = CFG(fn)
+        for mk in made:
+            b = st_name = mk.targets[0].id  # type: ignore[attr-defined]
+            regs = [st for st in walk_local(fn) if isinstance(st, ast.Assign) and isinstance(st.targets[0], ast.Subscript) and unparse(st.targets[0].value) == "self.blocks" and isinstance(st.value, ast.Tuple) and st.value.elts and unparse(st.value.elts[0]) == b]
+            others = {cfg.node_of(st) for st in walk_local(fn) if st is not mk and isinstance(st, (ast.Assign, ast.AnnAssign)) and any(isinstance(t, ast.Name) and t.id == b for t in (st.targets if isinstance(st, ast.Assign) else [st.target]))}
+            regs = [st for st in regs if cfg.path_avoiding(cfg.node_of(mk), cfg.node_of(st), lambda x: x.id in others, follow_exc=False) is not None]
+            if not regs:
+                continue  # not a block registered under a label
+            if not (f.raw_node.lineno <= mk.lineno <= (f.raw_node.end_lineno or 0)):
+                continue  # a helper's construction seen through inlining: judged in the helper itself
+            n += 1
+            label = unparse(regs[0].targets[0].slice)  # type: ignore[attr-defined]
+            inst = f"{f.fq}:{b}"
+            hint = set()
+            for st in walk_local(fn):
+                if isinstance(st, ast.Assign) and isinstance(st.targets[0], ast.Attribute) and st.targets[0].attr == "name_hint" and unparse(st.targets[0].value) == b and unparse(st.value) == label:
+                    hint.add(cfg.node_of(st))
+            # the permitted guard: `if Block.is_valid_name(label) and not Block.is_default_block_name(label): <hint store>`
+            guard_nodes = set()
+            for st in walk_local(fn):
+                if isinstance(st, ast.If) and any(cfg.node_of(x) in hint for x in st.body if isinstance(x, ast.Assign)):
+                    atoms = st.test.values if isinstance(st.test, ast.BoolOp) and isinstance(st.test.op, ast.And) else [st.test]
+                    texts = {unparse(a) for a in atoms}
+                    allowed = {f"Block.is_valid_name({label})", f"not Block.is_default_block_name({label})"}
+                    if texts <= allowed:
+                        guard_nodes.add(cfg.node_of(st.test))
+                    else:
+                        raise AnalysisError(f"{f.fq}: the name hint of `{b}` is set under `{unparse(st.test)[:80]}`, a guard this rule does not know")
+            start = cfg.node_of(mk)
+            p = cfg.path_avoiding(start, cfg.exit, lambda x: x.id in hint or x.id in guard_nodes, follow_exc=False)
+            if p is None:
+                r.ok(inst, f"{f.loc} `{b}` registered for `{label}` gets the label as hint on every path")
+            else:
+                r.fail(inst, Finding("C04.R9", f.fq, "label-not-kept", f"`{unparse(mk)}` creates the block registered under the label `{label}`, and a path to the end of the function never stores `{b}.name_hint = {label}`: a custom label whose first mention takes this path is printed back as an automatic `^bb<n>` (" + " -> ".join(cfg.describe(p)[-3:]) + ")", f"{PARSER}:{mk.lineno}"))
+    if n < 2:
+        raise AnalysisError(f"{PARSER}: {n} label-registered Block() constructions found in Parser (definition and forward reference expected)")
+
+
 def check(idx: Index, rep: Report, tier: str) -> str:
     rep.run(check_names, idx, rep)
     rep.run(check_ident_or_string, idx, rep)
     rep.run(check_sections, idx, rep)
     rep.run(check_order_and_scope, idx, rep)
     rep.run(check_forward_refs, idx, rep)
+    rep.run(check_label_hints, idx, rep)
     return (
         "Regular-language analysis (inclusion / intersection-emptiness with shortest witness, right quotient) between "
         "the name-hint pattern of xdsl/ir/core.py, the image of extract_valid_name, the printer's naming scheme and the "
